@@ -45,3 +45,4 @@ def run(project, rep):
     rep.run_only(("G-R1",), G.g_rules, project, rep, constructs=("USERCFG.read:",))
     rep.rule("J-R12", "an account option that is not given on the command line does not shadow the accounts configured or discovered: the argparse default of every account option is None (the account clause of G-R6) - `default=[]` is kept by extractns() as a given value, and the empty list then outranks ofxget.cfg and the --all layer")
     rep.run_only(("G-R6",), G.g_rules, project, rep, constructs=lambda c: any(c == f"argparse:{t}:default-None" for t in ("checking", "savings", "moneymrkt", "creditline", "creditcard", "investment", "bankid", "brokerid", "all")))
+    rep.run(G.j_r13_account_options_not_greedy, project, rep)
